@@ -320,8 +320,41 @@ func callFork(c *FnCall) (o fnOut) {
 			case FMarshalIndent:
 				b, err = fj.MarshalIndent(forkV, c.Prefix, c.Indent)
 			}
+			if err != nil && c.Again && repairValue(forkV) {
+				// the same object again, after the caller repaired what made it unencodable
+				first := errRender(err)
+				b, err = fj.Marshal(forkV)
+				o.Val = "first attempt: " + first
+			}
 			o.Out, o.Err = string(b), errRender(err)
 			o.ret = b
+		case FDecoderDecode:
+			t := PrefilledTarget(c.Target, c.TypeSeed, c.Prefill)
+			dec := fj.NewDecoder(bytes.NewReader(c.Text))
+			if c.UseNumber {
+				dec.UseNumber()
+			}
+			if c.Disallow {
+				dec.DisallowUnknownFields()
+			}
+			err := dec.Decode(t)
+			o.Val, o.ValNaf, o.Err = Render(t, false), Render(t, false), errRender(err)
+			o.Out = fmt.Sprint(dec.InputOffset())
+		case FEncoderEncode:
+			_, forkV, ok := buildValue(c.Text, c.Target, c.TypeSeed)
+			if !ok || c.Target == TTrust {
+				o.Skipped = true
+				return
+			}
+			*flakyCtl = FlakyCtl{FailAt: c.FailAt, Panic: c.Panic}
+			var buf bytes.Buffer
+			enc := fj.NewEncoder(&buf)
+			enc.SetEscapeHTML(c.Escape)
+			if c.Indent != "" || c.Prefix != "" {
+				enc.SetIndent(c.Prefix, c.Indent)
+			}
+			err := enc.Encode(forkV)
+			o.Out, o.Err = buf.String(), errRender(err)
 		case FValid:
 			o.Bool = fj.Valid(c.Text)
 		case FCompact:
@@ -393,7 +426,39 @@ func callStd(c *FnCall) (o fnOut) {
 			case FMarshalIndent:
 				b, err = sj.MarshalIndent(stdV, c.Prefix, c.Indent)
 			}
+			if err != nil && c.Again && repairValue(stdV) {
+				first := errRender(err)
+				b, err = sj.Marshal(stdV)
+				o.Val = "first attempt: " + first
+			}
 			o.Out, o.Err = string(b), errRender(err)
+		case FDecoderDecode:
+			t := PrefilledTarget(c.Target, c.TypeSeed, c.Prefill)
+			dec := sj.NewDecoder(bytes.NewReader(c.Text))
+			if c.UseNumber {
+				dec.UseNumber()
+			}
+			if c.Disallow {
+				dec.DisallowUnknownFields()
+			}
+			err := dec.Decode(t)
+			o.Val, o.Err = Render(t, false), errRender(err)
+			o.Out = fmt.Sprint(dec.InputOffset())
+		case FEncoderEncode:
+			stdV, _, ok := buildValue(c.Text, c.Target, c.TypeSeed)
+			if !ok || c.Target == TTrust || (c.Target == TRedirect && c.FailAt > 0) {
+				o.Skipped = true
+				return
+			}
+			*flakyCtl = FlakyCtl{FailAt: c.FailAt, Panic: c.Panic}
+			var buf bytes.Buffer
+			enc := sj.NewEncoder(&buf)
+			enc.SetEscapeHTML(c.Escape)
+			if c.Indent != "" || c.Prefix != "" {
+				enc.SetIndent(c.Prefix, c.Indent)
+			}
+			err := enc.Encode(stdV)
+			o.Out, o.Err = buf.String(), errRender(err)
 		case FValid:
 			o.Bool = sj.Valid(c.Text)
 		case FCompact:
@@ -419,7 +484,7 @@ func callStd(c *FnCall) (o fnOut) {
 var pristineFn = map[string]fnOut{}
 
 func fnKey(c *FnCall) string {
-	return fmt.Sprintf("%d|%d|%d|%v|%q|%q|%d|%v|%q|%s", c.Fn, c.Target, c.TypeSeed, c.Escape, c.Prefix, c.Indent, c.FailAt, c.Panic, c.Prefill, c.Text)
+	return fmt.Sprintf("%d|%d|%d|%v|%q|%q|%d|%v|%q|%v%v%v|%s", c.Fn, c.Target, c.TypeSeed, c.Escape, c.Prefix, c.Indent, c.FailAt, c.Panic, c.Prefill, c.UseNumber, c.Disallow, c.Again, c.Text)
 }
 
 func pristineCall(c *FnCall) fnOut {
@@ -536,9 +601,9 @@ func runFn(s *Scen, res *Result) {
 		res.Log = append(res.Log, fmt.Sprintf("%s(%s as %s) -> out=%s val=%s err=%q keys=%q", name, trunc(c.Text), targetNames[c.Target], trunc([]byte(got.Out)), trunc([]byte(got.Val)), got.Err, got.Keys))
 		if got.Err == "" && c.Fn != FValid {
 			res.Values++
-			if c.Fn <= FMarshalIndent {
+			if c.Fn <= FMarshalIndent || c.Fn >= FDecoderDecode {
 				kind := "decoded_ok_as "
-				if c.Fn >= FMarshal {
+				if (c.Fn >= FMarshal && c.Fn <= FMarshalIndent) || c.Fn == FEncoderEncode {
 					kind = "encoded_ok_from "
 				}
 				res.Probes[kind+targetNames[c.Target]]++
@@ -561,6 +626,14 @@ func runFn(s *Scen, res *Result) {
 		std := callStd(c)
 		if !std.Skipped {
 			switch c.Fn {
+			case FDecoderDecode:
+				if got.Err != std.Err {
+					res.viol("stdlib-diff", "codec|fn|"+name+"|stdlib-error", detail("error, fork vs encoding/json", fmt.Sprintf("%q", got.Err), fmt.Sprintf("%q", std.Err)), int(c.ID))
+				} else if got.ValNaf != std.Val {
+					res.viol("stdlib-diff", "codec|fn|"+name+"|stdlib-value", detail("value, fork vs encoding/json", trunc([]byte(got.ValNaf)), trunc([]byte(std.Val))), int(c.ID))
+				} else if got.Out != std.Out {
+					res.viol("stdlib-diff", "codec|fn|"+name+"|stdlib-offset", detail("InputOffset, fork vs encoding/json", got.Out, std.Out), int(c.ID))
+				}
 			case FUnmarshal, FUnmarshalWithKeys, FUnmarshalValid, FUnmarshalValidWithKeys:
 				if numberRangeErr(std.Err) || hasUnrepresentableNumber(c.Text) {
 					// the fork always decodes numbers as Number (the normalisation the property
